@@ -69,6 +69,11 @@ claim("C06", "cancellability classification of every blocking operation + path-s
       "that closers cancel first, that Execute starts terminate-all and bounds its second wait by a constant timeout, that the interrupt handler cancels the run, that deployments/sub-runs get the step context (C06.R1-R6). "
       "The numeric bound and plugin cooperation are not decided.", NOTE)
 
+claim("C09", "lockset + dominance rules on every write of the step state, informed by the explored goroutine paths (states in which each input channel is awaited)",
+      "Decides the structural condition without which the time-based fallback detector makes results schedule-dependent: it can never observe waiting_for_input for a step whose input was delivered - every hand-over flips "
+      "waiting to running in the same critical section, every entry into waiting is made in the critical section that tested the input-available flag, and the detector and the hand-overs run under the run lock (C09.R1-R3). "
+      "Everything else about timing is not decided.", NOTE)
+
 ALL = ["C%02d" % i for i in range(1, 21)]
 for pid in ALL:
     if pid not in P:
